@@ -196,6 +196,13 @@ func (rt *runtime) cmplEvaluateNodeForInStatement(node *nodeForInStatement) Valu
 	into := node.into
 	body := node.body
 
+	// A property name is visited at most once, also when the body deletes
+	// the property that shadowed one of the same name further up the chain.
+	var visited map[string]bool
+	if sourceObject.prototype != nil {
+		visited = map[string]bool{}
+	}
+
 	result := emptyValue
 	obj := sourceObject
 	for obj != nil {
@@ -207,6 +214,12 @@ func (rt *runtime) cmplEvaluateNodeForInStatement(node *nodeForInStatement) Valu
 				if shadow.getOwnProperty(name) != nil {
 					return true
 				}
+			}
+			if visited != nil {
+				if visited[name] {
+					return true
+				}
+				visited[name] = true
 			}
 			into := rt.cmplEvaluateNodeExpression(into)
 			// In the case of: for (var abc in def) ...
